@@ -29,7 +29,12 @@ def main():
     sh('git -C /repo worktree remove --force %s' % scratch)
     rc, out = sh('git -C /repo worktree add --detach %s HEAD' % scratch)
     meta = {'seed': sid, 'property': prop, 'confirmed': {}}
-    demo_cmd = 'cd %s && PYTHONPATH=%s /venv/bin/python %s' % (scratch, scratch, os.path.join(dst, demo))
+    # the demonstration runs the way its author ran it: from the worktree root, as _seed/<demo>
+    os.makedirs(os.path.join(scratch, '_seed'), exist_ok=True)
+    for f in os.listdir(dst):
+        if os.path.isfile(os.path.join(dst, f)) and f not in ('meta.json',):
+            shutil.copy(os.path.join(dst, f), os.path.join(scratch, '_seed', f))
+    demo_cmd = 'cd %s && PYTHONPATH=%s timeout 1200 /venv/bin/python _seed/%s' % (scratch, scratch, demo)
     rc0, o0 = sh(demo_cmd)
     meta['confirmed']['demo_on_original'] = {'exit': rc0, 'tail': o0.strip().splitlines()[-1:] }
     rc, out = sh('git -C %s apply %s' % (scratch, patch))
